@@ -51,7 +51,7 @@ func extractSymbols(journal *ast.Journal, uri protocol.DocumentURI, query string
 	for _, dir := range journal.Directives {
 		switch d := dir.(type) {
 		case ast.AccountDirective:
-			if matchesQuery(d.Account.Name, query) {
+			if d.Account.Name != "" && matchesQuery(d.Account.Name, query) {
 				symbols = append(symbols, protocol.SymbolInformation{
 					Name: d.Account.Name,
 					Kind: protocol.SymbolKindClass,
@@ -62,7 +62,9 @@ func extractSymbols(journal *ast.Journal, uri protocol.DocumentURI, query string
 				})
 			}
 		case ast.CommodityDirective:
-			if matchesQuery(d.Commodity.Symbol, query) {
+			// "commodity 1.000,00" declares the format of amounts without commodity:
+			// there is no symbol, and no place in the text, to show
+			if d.Commodity.Symbol != "" && matchesQuery(d.Commodity.Symbol, query) {
 				symbols = append(symbols, protocol.SymbolInformation{
 					Name: d.Commodity.Symbol,
 					Kind: protocol.SymbolKindEnum,
